@@ -343,4 +343,41 @@ PROPS = {
                        'every answer of the code is judged against the IDEAL specification: a panic, an acceptance the specification refuses, or a stored '
                        'value other than the final node is a monitor failure naming the clause',
     },
+    'C14': {
+        'lean_targets': ['Shisui.Props.C14'],
+        'min_obligations': 25,
+        # driver argument list: ['C14'] = the decoders as they are today (three deviations modelled by switches and reported
+        # by the monitor clauses canonical_zero_offset_empty_list, canonical_trailing_bytes_ignored,
+        # roundtrip_empty_list_rejected); ['C14', 'ideal'] = all switches off
+        'runs': [{'name': 'ssz', 'harness': ['C14'], 'driver': ['C14', 'noguard']}],
+        'rule': '49 types with a Lean codec (11 portalwire messages, 5 ping payloads, 9 types/history, 7 history, 5 beacon content keys, 12 state types) and '
+                '8 beacon containers checked Go-side (4 fork-tagged light-client wrappers over 4 forks, LightClientUpdateRange, HistoricalSummariesProof, '
+                '(Forked)HistoricalSummariesWithProof). VALUES through the real MarshalSSZ/Serialize then UnmarshalSSZ/Deserialize into a fresh object: every field '
+                'within, at (max-1, max) and just beyond (max+1, max+k) its declared limit, one field beyond at a time; fixed-size fields one byte short/long, '
+                'vectors with an item missing/extra/mis-sized; bit lists of 0..64 bits, 65+ bits, 10..64 bytes, >64 bytes, no sentinel, zero last byte; a '
+                'deterministic sweep puts every limit of every type at max and max+1 (16384-item lists included); when the encoder refuses, the image such a value '
+                'would have is written by the harness and handed to the decoder. BYTE STRINGS through the real decoder then the real encoder of the result: '
+                'valid encodings, bit flips, byte replacements, truncations, trailing bytes, deletions, insertions, every offset (container slots and list '
+                'tables) rewritten to +-1, +-4, 0, len, len+1, 2^32-1, equal to / swapped with a neighbour (overlapping, decreasing) or shifted with padding, '
+                'random strings around the fixed size, and ALL tails of <= 2 offset words (+ <= 2 bytes) resp. <= 3 bytes over a 4-symbol alphabet after the '
+                'minimal fixed part (thorough: 3 words / 6 bytes, all counts x20); go-bitfield bit lists of 0..80 bits; the pre-built error payload table; the '
+                'repository\'s portal-spec-test vectors for the beacon wrappers. Not crossed: 16 MiB per transaction, 128 MiB per receipt, 2^24 historical summaries. '
+                'non-trivial = a value case, or a byte string that decodes; distinct = distinct input lines among those',
+        'trusted': ['fastssz helpers (DecodeDynamicLength, UnmarshalDynamic, DivideInt2, ValidateBitlist) and ztyp codec (Container, FixedLenContainer, List, '
+                    'ByteList) are re-modelled in Lean from their source for the shapes shisui uses and compared with the real code on every case',
+                    'the schemas in lean/Shisui/Ssz/Schemas.lean are transcribed by hand from struct tags and Marshal/Unmarshal bodies (no extractor in this '
+                    'framework): a wrong or changed limit shows as a model/implementation mismatch at the boundary cases of the sweep',
+                    'zrnt light-client containers (inner codec of the Forked* wrappers) are exercised through the wrappers, not modelled',
+                    'the compiled driver evaluates Sz.decodeDyn through a sequential slicing function proved equal to it (csimp lemma Sz.decodeDyn_eq_fast)'],
+        'assumptions': ['encodings shorter than 2^32 bytes (Go writes offsets with uint32(offset)); discharged from the schema for 46 of the 49 types',
+                        'decoders are given a fresh object (UnmarshalSSZ appends to slices already present)',
+                        'state path nibbles are below 16 (the encoder does not check; FromUnpackedNibbles does)'],
+        'explanation': 'theorems for EVERY schema with consistent limits and either setting of the deviation switches: roundtrip (+ roundtrip_bounded without side '
+                       'conditions), overlimit, limits_enforced (+ the declared numbers per wire message, + every ping payload fits PING, + go-bitfield verdict lists are valid ACCEPT bit lists iff <= 64 bits), canonical for the ideal '
+                       'codec and, as implemented, for 38 of the 49 types; canonical_partial + three decided witnesses for the other 11. Correspondence: step '
+                       'equality in both directions (value -> bytes -> value and bytes -> value -> bytes) for 49 types, zero tolerance; the property clauses '
+                       '(roundtrip, overlimit_rejected, limits_enforced, canonical re-encoding, error table = struct) are evaluated on the implementation output '
+                       'independently of the model. Beacon containers: Go-side round-trip, digest->type dispatch, slot accessors, limit and canonicity facts per '
+                       'wrapper and fork, without a Lean codec',
+    },
 }
